@@ -498,7 +498,20 @@ fn typed_use(a: &mut Asm, r: &mut Rng, scratch_slot: U256) {
 /// One storage fragment on slot `s`; stack-neutral.
 fn storage_fragment(a: &mut Asm, r: &mut Rng, s: U256, slots: &[U256]) {
     let other = *r.pick(slots);
-    match r.below(25) {
+    match r.below(26) {
+        25 => {
+            // the same element of the array at slot 0 read twice through
+            // keccak(mem[m..m+32]) + x: once while that memory was never
+            // written (it reads as zero), once after a zero was stored there;
+            // both results parked in memory
+            let m = 0x400 + 0x40 * r.below(8) as u128;
+            let x = r.below(4) as u128;
+            a.push_u(0x20).push_u(m).op(op::SHA3).push_u(x).op(op::ADD).op(op::SLOAD);
+            a.push_u(0x80 + 0x20 * r.below(4) as u128).op(op::MSTORE);
+            a.op(op::PUSH0).push_u(m).op(op::MSTORE);
+            a.push_u(0x20).push_u(m).op(op::SHA3).push_u(x).op(op::ADD).op(op::SLOAD);
+            a.push_u(0x100 + 0x20 * r.below(4) as u128).op(op::MSTORE);
+        }
         23 => {
             // the same small slot written through two different computed keys
             // (the VM does not fold storage keys) with different kinds of
